@@ -549,6 +549,20 @@ def expected_getter(cfg, ret):
     if isinstance(v, tuple) and v and v[0] == 'field':
         return want, False, 'a stored copy of the request is returned (it is -1 / not positive for n <= 0 and ignores ' \
                             'the backend)'
+    if isinstance(v, tuple) and len(v) == 3 and v[0] in ('min', 'max'):
+        # the configured limit combined with a second quantity: reported value == n only if that quantity never cuts in.  Quantities
+        # that are documented not to follow the limit (hardware / arena concurrency, per-team OpenMP values) are recognised wrong.
+        oks = [expected_getter(cfg, x)[1] for x in v[1:]]
+        if oks.count(True) == 1:
+            other = v[1:][1 - oks.index(True)]
+            ov = strip_site(other)
+            oq = ov[1] if isinstance(ov, tuple) and ov and ov[0] == 'call' else None
+            if (isinstance(ov, tuple) and ov and ov[0] == 'hw') or (oq is not None and (oq in WRONG_GETTERS or
+                    oq.endswith('::max_concurrency') or oq.endswith('::hardware_concurrency') or
+                    oq.endswith('::default_concurrency'))):
+                return want, False, 'the configured limit is combined (%s) with %s, which does not follow initTaskingSystem(n) - ' \
+                                    'hardware / arena concurrency ignores the limit: for n on the other side of it the function ' \
+                                    'reports that quantity, not n' % (v[0], show_val(other))
     return want, None, ''
 
 
